@@ -202,6 +202,129 @@ theorem floordiv_raw_eq_repr (t : Fmt) (r : Rounding) (o : Overflow) (x y : Fmt)
   unfold arithRaw arithRepr storeRawFloat storeFloat
   rw [floordiv_eq_floor t.nfrac x y a b hb]; rfl
 
+/-- the optimal `floordiv` format `(s, max (x.n_int + y.n_frac + s) 0, 0)` exists for **every** pair of operand formats
+(fraction lengths beyond the word, or negative ones, included — before D43 the integer length could come out negative and no
+format existed). -/
+theorem floordiv_fmt (x y : Fmt) (hx : x.WF) :
+    ∃ t, resultFmt .optimal .floordiv x y = some t ∧ t.signed = (x.signed || y.signed) ∧ t.nfrac = 0 ∧ t.WF ∧
+      (t.mag : ℤ) = max ((x.mag : ℤ) - x.nfrac + y.nfrac + bsig (x.signed || y.signed)) 0 := by
+  have ix := nint_eq_mag x hx
+  unfold resultFmt sizing optimalSize
+  simp only
+  unfold mkFmt
+  rw [ix]
+  have hb : 0 ≤ bsig (x.signed || y.signed) ∧ bsig (x.signed || y.signed) ≤ 1 := by
+    unfold bsig; split <;> omega
+  have hbs : (x.signed || y.signed) = true → bsig (x.signed || y.signed) = 1 := by
+    intro h; unfold bsig; rw [if_pos h]
+  have hbu : (x.signed || y.signed) = false → bsig (x.signed || y.signed) = 0 := by
+    intro h; unfold bsig; rw [if_neg (by simp [h])]
+  rw [if_neg]
+  · refine ⟨_, rfl, rfl, rfl, ?_, ?_⟩
+    · intro h
+      have := hbs h
+      show 0 < Int.toNat _
+      omega
+    · show ((Int.toNat _ - (if (x.signed || y.signed) = true then 1 else 0) : ℕ) : ℤ) = _
+      cases hs : (x.signed || y.signed)
+      · have := hbu hs; simp only [hs] at *; simp; omega
+      · have := hbs hs; simp only [hs] at *; simp; omega
+  · rintro (h | ⟨h1, h2⟩)
+    · omega
+    · have := hbs h1; omega
+
+theorem abs_code_le (x : Fmt) (hx : x.WF) (a : ℤ) (ha : x.InRange a) : |(a:ℚ)| ≤ (2:ℚ) ^ (x.mag : ℤ) := by
+  obtain ⟨a1, a2⟩ := (inRange_iff_mag x hx a).mp ha
+  have hb : 0 ≤ bsig x.signed ∧ bsig x.signed ≤ 1 := by unfold bsig; split <;> omega
+  have hp : (0:ℤ) < 2 ^ x.mag := by positivity
+  have : |a| ≤ 2 ^ x.mag := by rw [abs_le]; constructor <;> nlinarith
+  rw [zpow_natCast]
+  exact_mod_cast this
+
+/-- **`x // y` never overflows its optimal format**, for every pair of operand formats (any fraction lengths), every pair of
+in-range codes and every non-zero divisor: `floor(x/y)` is a code of the format `floordiv` builds. With `floordiv_eq_floor`
+this is "x//y equals floor(x/y) exactly". -/
+theorem floordiv_fits (x y : Fmt) (hx : x.WF) (hy : y.WF) (a b : ℤ) (ha : x.InRange a) (hb : y.InRange b)
+    (hb0 : b ≠ 0) (t : Fmt) (ht : resultFmt .optimal .floordiv x y = some t) :
+    t.InRange ⌊valueOf x a / valueOf y b⌋ := by
+  obtain ⟨t', ht', hs, _hf, hwf, hmag⟩ := floordiv_fmt x y hx
+  rw [ht] at ht'; cases ht'
+  rw [inRange_iff_mag t hwf, hs]
+  set E : ℤ := (x.mag : ℤ) - x.nfrac + y.nfrac with hE
+  set v : ℚ := valueOf x a / valueOf y b with hv
+  -- the divisor's magnitude is at least one LSB, the dividend's at most 2^mag LSBs
+  have hA : |valueOf x a| ≤ (2:ℚ) ^ (x.mag : ℤ) * (2:ℚ) ^ (-x.nfrac) := by
+    unfold valueOf; rw [scale_eq, abs_mul, abs_of_pos (two_zpow_pos _)]
+    exact mul_le_mul_of_nonneg_right (abs_code_le x hx a ha) (le_of_lt (two_zpow_pos _))
+  have hb1 : (1:ℚ) ≤ |(b:ℚ)| := by
+    have : (1:ℤ) ≤ |b| := Int.one_le_abs hb0
+    exact_mod_cast this
+  have hB : (2:ℚ) ^ (-y.nfrac) ≤ |valueOf y b| := by
+    unfold valueOf; rw [scale_eq, abs_mul, abs_of_pos (two_zpow_pos _)]
+    calc (2:ℚ) ^ (-y.nfrac) = 1 * (2:ℚ) ^ (-y.nfrac) := (one_mul _).symm
+      _ ≤ |(b:ℚ)| * (2:ℚ) ^ (-y.nfrac) := mul_le_mul_of_nonneg_right hb1 (le_of_lt (two_zpow_pos _))
+  have hBpos : 0 < |valueOf y b| := lt_of_lt_of_le (two_zpow_pos _) hB
+  have hEsplit : (2:ℚ) ^ E * (2:ℚ) ^ (-y.nfrac) = (2:ℚ) ^ (x.mag : ℤ) * (2:ℚ) ^ (-x.nfrac) := by
+    rw [← zpow_add₀ two_ne, ← zpow_add₀ two_ne]; congr 1; rw [hE]; ring
+  -- |v| ≤ 2^E
+  have hV : |v| ≤ (2:ℚ) ^ E := by
+    rw [hv, abs_div, div_le_iff₀ hBpos]
+    calc |valueOf x a| ≤ (2:ℚ) ^ (x.mag : ℤ) * (2:ℚ) ^ (-x.nfrac) := hA
+      _ = (2:ℚ) ^ E * (2:ℚ) ^ (-y.nfrac) := hEsplit.symm
+      _ ≤ (2:ℚ) ^ E * |valueOf y b| := mul_le_mul_of_nonneg_left hB (le_of_lt (two_zpow_pos _))
+  obtain ⟨v1, v2⟩ := abs_le.mp hV
+  set N : ℤ := max (E + bsig (x.signed || y.signed)) 0 with hN
+  have hN0 : 0 ≤ N := le_max_right _ _
+  have hmagN : (t.mag : ℤ) = N := hmag
+  have hpowN : (((2:ℤ) ^ t.mag : ℤ) : ℚ) = (2:ℚ) ^ N := by
+    rw [← hmagN, zpow_natCast]; push_cast; rfl
+  cases hsg : (x.signed || y.signed)
+  · -- unsigned result: both operands unsigned, the quotient is non-negative and strictly below 2^E ≤ 2^N
+    have hxs : x.signed = false := by cases h : x.signed <;> simp_all
+    have hys : y.signed = false := by cases h : y.signed <;> simp_all
+    obtain ⟨a1, a2⟩ := (inRange_iff_mag x hx a).mp ha
+    obtain ⟨b1, _⟩ := (inRange_iff_mag y hy b).mp hb
+    rw [hxs] at a1; rw [hys] at b1
+    simp only [bsig, Bool.false_eq_true, if_false, neg_zero, zero_mul] at a1 b1 ⊢
+    have hbpos : (1:ℤ) ≤ b := by omega
+    have hvx : 0 ≤ valueOf x a := by
+      unfold valueOf; rw [scale_eq]; exact mul_nonneg (by exact_mod_cast a1) (le_of_lt (two_zpow_pos _))
+    have hvy : 0 < valueOf y b := by
+      unfold valueOf; rw [scale_eq]; exact mul_pos (by exact_mod_cast (by omega : (0:ℤ) < b)) (two_zpow_pos _)
+    have hv0 : 0 ≤ v := div_nonneg hvx (le_of_lt hvy)
+    have hENle : E ≤ N := by rw [hN, hsg]; simp [bsig]
+    have hvlt : v < (2:ℚ) ^ N := by
+      have h1 : valueOf x a < (2:ℚ) ^ (x.mag : ℤ) * (2:ℚ) ^ (-x.nfrac) := by
+        unfold valueOf; rw [scale_eq]
+        apply mul_lt_mul_of_pos_right _ (two_zpow_pos _)
+        rw [zpow_natCast]
+        have : a < 2 ^ x.mag := by omega
+        exact_mod_cast this
+      have h2 : (2:ℚ) ^ (-y.nfrac) ≤ valueOf y b := by rw [abs_of_pos hvy] at hB; exact hB
+      have h3 : v < (2:ℚ) ^ E := by
+        rw [hv, div_lt_iff₀ hvy]
+        calc valueOf x a < (2:ℚ) ^ (x.mag : ℤ) * (2:ℚ) ^ (-x.nfrac) := h1
+          _ = (2:ℚ) ^ E * (2:ℚ) ^ (-y.nfrac) := hEsplit.symm
+          _ ≤ (2:ℚ) ^ E * valueOf y b := mul_le_mul_of_nonneg_left h2 (le_of_lt (two_zpow_pos _))
+      exact lt_of_lt_of_le h3 (zpow_le_zpow_right₀ (by norm_num) hENle)
+    constructor
+    · exact Int.floor_nonneg.mpr hv0
+    · have : ⌊v⌋ < 2 ^ t.mag := by
+        rw [Int.floor_lt]; rw [hpowN]; exact hvlt
+      omega
+  · -- signed result: |v| ≤ 2^E < 2^(E+1) ≤ 2^N
+    have hE1N : E + 1 ≤ N := by rw [hN, hsg]; simp [bsig]
+    have hlt : (2:ℚ) ^ E < (2:ℚ) ^ N :=
+      lt_of_lt_of_le (zpow_lt_zpow_right₀ (by norm_num) (by omega : E < E + 1)) (zpow_le_zpow_right₀ (by norm_num) hE1N)
+    simp only [bsig, if_true]
+    constructor
+    · have : (-(2 ^ t.mag : ℤ)) ≤ ⌊v⌋ := by
+        rw [Int.le_floor]; push_cast; rw [show ((2:ℚ) ^ t.mag) = (((2:ℤ) ^ t.mag : ℤ) : ℚ) by push_cast; rfl, hpowN]; linarith
+      linarith
+    · have : ⌊v⌋ < 2 ^ t.mag := by
+        rw [Int.floor_lt]; rw [hpowN]; linarith
+      omega
+
 /-- `x % y = x - y·floor(x/y)` exactly (raw method, any result fraction length). -/
 theorem mod_eq (F : ℤ) (x y : Fmt) (a b : ℤ) (hb : b ≠ 0) :
     rawKernel .mod F x y a b = scale (exactOp .mod (valueOf x a) (valueOf y b)) F := by
